@@ -1030,6 +1030,28 @@ def oracle(kind, **p):
             if y is not x and op != 'assign':
                 ok = ok and val(y) == py
             return ok, got[:4], want[:4]
+        if kind == 'reject':
+            # operands from another space are rejected with an exception and nothing is modified
+            import random as _r
+            prng = _r.Random(p['seed'])
+            r1, r2, op = p['recipe'], p['other'], p['op']
+            x = mk_element(prng, r1, 'any'); y = mk_element(prng, r2, 'any'); z = mk_element(prng, r1, 'any')
+            lx = [np.array(t.data, copy=True) for t in leaf_tensors(x)]
+            ly = [np.array(t.data, copy=True) for t in leaf_tensors(y)]
+            lz = [np.array(t.data, copy=True) for t in leaf_tensors(z)]
+            space = x.space
+            g = {'add': lambda: x + y, 'iadd': lambda: x.__iadd__(y), 'sub': lambda: x - y, 'mul': lambda: x * y,
+                 'imul': lambda: x.__imul__(y), 'truediv': lambda: x / y, 'assign': lambda: x.assign(y),
+                 'lincomb_x2': lambda: space.lincomb(1, x, 2, y, out=z), 'lincomb_out': lambda: space.lincomb(1, x, 2, z, out=y),
+                 'lincomb_x1': lambda: space.lincomb(1, y, 2, x, out=z), 'multiply': lambda: space.multiply(x, y, out=z),
+                 'divide_out': lambda: space.divide(x, z, out=y)}[op]
+            try:
+                g()
+                ok, obs = False, 'returned'
+            except (TypeError, ValueError) as e:
+                ok, obs = True, type(e).__name__
+            same = all(np.array_equal(t.data, u) for e_, l_ in ((x, lx), (y, ly), (z, lz)) for t, u in zip(leaf_tensors(e_), l_))
+            return ok and same, obs, 'TypeError/LinearSpaceTypeError, operands untouched'
         if kind == 'set_zero':
             space = odl.tensor_space(p['n'], dtype=p['dtype']) if p.get('space', 'tensor') == 'tensor' else \
                 odl.uniform_discr(0, 1, p['n'], dtype=p['dtype'])
@@ -1257,6 +1279,16 @@ def probes(rng, tier):
                                '%s %s(%d): %s%s with entries up to 2**60, exact' % (sk, dtype, n, op, ' (self)' if same else ''),
                                'int_exact', dtype=dtype, n=n, op=op, same=same, space=sk, c=rng.choice([1, 2, 3]),
                                seed=rng.randint(0, 10 ** 6))
+    # 1g. operands that are not elements of the space are rejected and nothing is modified
+    pairs_r = [(('T', 'float64', (3,)), ('T', 'float64', (4,))), (('T', 'float64', (3,)), ('T', 'float32', (3,))),
+               (('T', 'float64', (3,)), ('T', 'complex128', (3,))), (('D', 'float64', (3,)), ('T', 'float64', (3,))),
+               (('P', [('T', 'float64', (2,))] * 2), ('P', [('T', 'float64', (2,))] * 3)),
+               (('P', [('T', 'float64', (2,)), ('T', 'float64', (3,))]), ('P', [('T', 'float64', (3,)), ('T', 'float64', (2,))]))]
+    for r1, r2 in pairs_r:
+        for op in ('add', 'iadd', 'sub', 'mul', 'imul', 'truediv', 'assign', 'lincomb_x1', 'lincomb_x2', 'lincomb_out',
+                   'multiply', 'divide_out'):
+            _probe(out, 'reject-foreign-operand-%s' % op, '%s with an operand of %r in %r raises and modifies nothing' % (op, r2, r1),
+                   'reject', recipe=r1, other=r2, op=op, seed=rng.randint(0, 10 ** 6))
     # 2. set_zero() on garbage
     for n in [1, 3, 99, 100, 101, 50000]:
         for fill in ('nan', 'inf'):
